@@ -13,3 +13,101 @@ pub assume_specification<T, U, F> [std::option::Option::<T>::map_or] (o: std::op
     where F: std::ops::FnOnce(T,) -> U + std::marker::Destruct, U: std::marker::Destruct,
     requires o is Some ==> call_requires(f, (o->0,)),
     ensures match o { Some(v) => call_ensures(f, (v,), r), None => r == d };
+
+#[verifier::allow(undeclared_external_trait)]
+pub assume_specification<T, E> [std::result::Result::<T, E>::unwrap_or_default] (r: std::result::Result<T, E>) -> (o: T)
+    where E: std::marker::Destruct, T: std::default::Default + std::marker::Destruct,
+    ensures r is Ok ==> o == r->Ok_0;
+
+#[verifier::allow(undeclared_external_trait)]
+pub assume_specification<T> [bool::then_some] (b: bool, v: T) -> (r: std::option::Option<T>)
+    where T: std::marker::Destruct,
+    ensures r == (if b { Some(v) } else { None::<T> });
+
+// ---- comparator vocabulary -------------------------------------------------------------------------
+pub open spec fn ord_rank(o: Ordering) -> int { match o { Ordering::Less => 0, Ordering::Equal => 1, Ordering::Greater => 2 } }
+
+// the comparator's specification allows exactly one answer per element
+pub open spec fn cmp_deterministic<'a, T: 'a, F: FnOnce(&'a T) -> Ordering>(f: F) -> bool {
+    forall|m: &'a T, o1: Ordering, o2: Ordering| #[trigger] call_ensures(f, (m,), o1) && #[trigger] call_ensures(f, (m,), o2) ==> o1 == o2
+}
+
+// the slice is sorted w.r.t. the comparator: Less* Equal* Greater*
+pub open spec fn cmp_mono<'a, T: 'a, F: FnOnce(&'a T) -> Ordering>(s: Seq<T>, f: F) -> bool {
+    forall|i: int, j: int, oi: Ordering, oj: Ordering| 0 <= i < j < s.len()
+        && #[trigger] call_ensures(f, (&s[i],), oi) && #[trigger] call_ensures(f, (&s[j],), oj) ==> ord_rank(oi) <= ord_rank(oj)
+}
+
+// "the comparator answers non-Equal for x" in the only form a closure contract supports (positive, relational)
+pub open spec fn cmp_ne<'a, T: 'a, F: FnOnce(&'a T) -> Ordering>(f: F, x: &'a T) -> bool {
+    exists|o: Ordering| #[trigger] call_ensures(f, (x,), o) && o != Ordering::Equal
+}
+
+// modelling assumption: a comparator closure whose precondition holds returns *some* value allowed by its contract
+// (exec closures terminate; Verus only axiomatises ensures => clause, not the existence of a result)
+#[verifier::external_body]
+pub proof fn axiom_call_total<'a, T: 'a, F: Fn(&'a T) -> Ordering>(f: F, x: &'a T)
+    requires call_requires(f, (x,)),
+    ensures exists|o: Ordering| #[trigger] call_ensures(f, (x,), o),
+{}
+
+// documented contract of <[T]>::binary_search_by: a hit is an Equal element; on a slice sorted w.r.t. a
+// (deterministic) comparator a miss means there is no Equal element.
+#[verifier::allow(undeclared_external_trait)]
+pub assume_specification<'a, T, F> [<[T]>::binary_search_by] (s: &'a [T], f: F) -> (r: std::result::Result<usize, usize>)
+    where F: std::ops::FnMut(&'a T,) -> std::cmp::Ordering,
+    requires forall|i: int| 0 <= i < s@.len() ==> #[trigger] call_requires(f, (&s@[i],)),
+    ensures
+        match r {
+            Ok(i) => i < s@.len() && call_ensures(f, (&s@[i as int],), Ordering::Equal),
+            Err(i) => i <= s@.len() && (cmp_mono(s@, f) && cmp_deterministic(f)
+                        ==> forall|j: int| 0 <= j < s@.len() ==> cmp_ne(f, &#[trigger] s@[j])),
+        };
+
+// R2 shims: the body of each shim is exactly the expression it replaces in the extracted code
+#[verifier::external_body]
+fn shim_slice_rposition<'a, T, P: FnMut(&'a T) -> bool>(s: &'a [T], p: P) -> (r: Option<usize>)
+    requires forall|i: int| 0 <= i < s@.len() ==> #[trigger] call_requires(p, (&s@[i],)),
+    ensures match r {
+        Some(k) => k < s@.len() && call_ensures(p, (&s@[k as int],), true)
+            && forall|j: int| k < j < s@.len() ==> call_ensures(p, (& #[trigger] s@[j],), false),
+        None => forall|j: int| 0 <= j < s@.len() ==> call_ensures(p, (& #[trigger] s@[j],), false),
+    }
+{ s.iter().rposition(p) }
+
+#[verifier::external_body]
+fn shim_slice_position<'a, T, P: FnMut(&'a T) -> bool>(s: &'a [T], p: P) -> (r: Option<usize>)
+    requires forall|i: int| 0 <= i < s@.len() ==> #[trigger] call_requires(p, (&s@[i],)),
+    ensures match r {
+        Some(k) => k < s@.len() && call_ensures(p, (&s@[k as int],), true)
+            && forall|j: int| 0 <= j < k ==> call_ensures(p, (& #[trigger] s@[j],), false),
+        None => forall|j: int| 0 <= j < s@.len() ==> call_ensures(p, (& #[trigger] s@[j],), false),
+    }
+{ s.iter().position(p) }
+
+// ---- str order (assumed: lexicographic byte order of str is a total order determined by the contents) ----
+pub uninterp spec fn seq_cmp(a: Seq<char>, b: Seq<char>) -> Ordering;
+
+#[verifier::external_body]
+pub proof fn axiom_str_obeys()
+    ensures <str as vstd::std_specs::cmp::OrdSpec>::obeys_cmp_spec(),
+{}
+
+#[verifier::external_body]
+pub broadcast proof fn axiom_str_cmp(a: &str, b: &str)
+    ensures #[trigger] vstd::std_specs::cmp::OrdSpec::cmp_spec(a, b) == seq_cmp(a@, b@),
+{}
+
+#[verifier::external_body]
+pub proof fn axiom_seq_cmp_total(a: Seq<char>, b: Seq<char>)
+    ensures
+        (seq_cmp(a, b) == Ordering::Equal) <==> a == b,
+        (seq_cmp(a, b) == Ordering::Less) <==> (seq_cmp(b, a) == Ordering::Greater),
+{}
+
+#[verifier::external_body]
+pub proof fn axiom_seq_cmp_trans(a: Seq<char>, b: Seq<char>, c: Seq<char>)
+    requires seq_cmp(a, b) != Ordering::Greater, seq_cmp(b, c) != Ordering::Greater,
+    ensures seq_cmp(a, c) != Ordering::Greater,
+        (seq_cmp(a, b) == Ordering::Less || seq_cmp(b, c) == Ordering::Less) ==> seq_cmp(a, c) == Ordering::Less,
+{}
